@@ -186,7 +186,7 @@ Qed.
 Lemma Q_accept A g s r tok con : okreg g s -> Q A g s (accept s r tok con).
 Proof.
   intros [H1 H2]. unfold accept.
-  set (g' := mkreg r tok (s_gidctr s) con PWait 0 None false).
+  set (g' := mkreg r tok (s_gidctr s) con PWait (-1) None false).
   match goal with |- context [if s_gate ?x then _ else _] => set (s2 := x) end.
   assert (Hg : g_gid g' <> g) by (unfold g'; cbn [g_gid]; lia).
   assert (Q2 : Q A g s s2).
